@@ -461,6 +461,7 @@ def run(chk):
     _capscope_rule(chk, fn)
     _repeatempty_rule(chk, fn)
     _capload_rule(chk, prog, tu)
+    _tagbyte_rule(chk, prog, tu)
     cfn = prog.need_func("peg_compile1", tu)
     chk.analysed(cfn)
     _restore_rule(chk, cfn, "C12-SCOPE", "grammar",
@@ -705,3 +706,32 @@ def _capload_rule(chk, prog, tu):
                           "%s rewinds `%s`, which it is meant to keep: tagged captures made inside a successful group are lost to later "
                           "back-references" % (fn.name, f))
     chk.floor(rule, 5)
+
+
+def _tagbyte_rule(chk, prog, tu):
+    """Capture tags are numbered by the grammar compiler and stored one BYTE each next to the captures at match time
+    (s->tags is a byte buffer), while get-tag / backmatch compare with the full number from the bytecode.  The compiler
+    therefore may hand out tag numbers up to 255 only: number 256 is stored as 0 and its back-reference never finds it."""
+    rule = "C12-TAGBYTE"
+    chk.rule(rule, "the PEG compiler issues a new tag number only on a path that compared it with 255 (tags are stored in one byte at match time)")
+    fn = next((f for f in tu.funcs.values() if f.name == "emit_tag"), None)
+    if fn is None:
+        raise AnalysisBroken("emit_tag not found")
+    chk.analysed(fn)
+    rets = [x for x in fn.nodes if x.k == "return" and x.kids and strip_casts(x.kids[0]).k == "ref"]
+    if not rets:
+        raise AnalysisBroken("emit_tag: return of the new tag not found")
+    IN, T = flow.condition_facts(fn, dead_calls=prog.is_noreturn)
+    for x, S in flow.states_at(fn, IN, T):
+        if x in rets:
+            v = strip_casts(x.kids[0]).name
+            chk.instance(rule)
+            ok = bool(S) and all(any(ln is not None and rn is not None and strip_casts(ln).k == "ref" and strip_casts(ln).name == v and
+                                     ((op == "<=" and rn.v == 255) or (op == "<" and rn.v == 256)) for (op, l, r, toks, ln, rn) in ps) for ps in S)
+            if ok:
+                chk.ok(rule, "emit_tag: `%s` is at most 255" % v)
+            else:
+                chk.violation(rule, "peg.c", "emit_tag", "tag-range", x.loc,
+                              "`%s` can be 256 or more when it is handed out: at match time the tag is stored in one byte, 256 becomes 0, "
+                              "and (backref t) / (backmatch t) on that tag silently never match" % v)
+    chk.floor(rule, 1, len(rets))
